@@ -24,8 +24,13 @@ def main(argv=None):
         for r in ex.map(one, variants):
             if r:
                 failed.append(r)
+    for t in ('i686', 's390x', 'aarch64'):
+        try:
+            build.ensure_miri(t, quiet=False)
+        except build.BuildError as e:
+            failed.append(('miri-' + t, e.first_error()))
     for v, e in failed:
         print('[setup] variant %s failed to build: %s' % (v, e), file=sys.stderr)
     print('[setup] done in %.0fs (%d variants, %d failed)' % (time.time() - t0, len(variants), len(failed)), file=sys.stderr)
     # thorough-only variants may fail (e.g. nightly sanitizer unavailable) without failing setup
-    return 1 if any(v in QUICK_VARIANTS for v, _ in failed) else 0
+    return 1 if any(v in QUICK_VARIANTS or v.startswith('miri-') for v, _ in failed) else 0
